@@ -8,12 +8,20 @@ Ops (one case = one fresh server):
   `setup <n> <room> <dial>`     n = 0: no clients; n = 1: client c1 (user u1) joined to `room` with
                                 Nextcloud session id rs1, client c2 (user u2) connected without room.
                                 dial ∈ none|accept|error|ringing|badtype|silent: the internal dial-out client.
+  world ops (output `ok`, or `skip` when the precondition does not hold; never judged):
+  `conn <k> <user>`             client ck (k = 1..4) connects as `user`
+  `join <k> <room> <rsid>`      ck joins `room` with Nextcloud session id `rsid` (leaving the room it is in)
+  `leave <k>` / `bye <k>`       ck leaves its room / ends its session
+  `iconn` / `ijoin <room> <rsid>`  an internal client (no dial-out feature) connects / joins a room
+  `virt <n> <room> <flags>` / `vrem <n>`  the internal client adds / removes virtual session vn
   `req <room> <body>`           signed POST of the (percent-encoded) bytes to /api/v1/room/<room>;
                                 the bytes are a JSON document, decoded here the way the generated
-                                easyjson decoder of BackendServerRoomRequest decodes it
+                                easyjson decoder of BackendServerRoomRequest decodes it; `@ck@`, `@ci@`,
+                                `@vn@` in it stand for the public session ids
   `raw <room> <bytes>`          the same with bytes that are no JSON document at all
 
-Implementation / model output of a request: `<status|neterr> <live|dead> <events> <digest>`.
+Implementation / model output of a request: `<status|neterr> <live|dead:…|hung@…> <events> <digest>`;
+digest = `<room>=<properties>=<sessions in the call>;…` over the existing rooms.
 -/
 namespace SigModel.Driver.C11
 open SigModel.Proto SigModel.ShapesBackend
@@ -327,10 +335,93 @@ def parseDial : String → Option DialoutEnv
   | "silent" => some .timeout
   | _ => none
 
+/-- `conn k user` -/
+def addClient (w : World) (pub user : String) (kind : Kind) : Option World :=
+  if w.sessions.any (·.pub = pub) then none
+  else some { w with sessions := w.sessions ++ [{ pub := pub, user := user, kind := kind }] }
+
+def rsidInUse (w : World) (rs : String) : Bool :=
+  w.sessions.any (fun s => s.kind != .virtual && s.room.isSome && s.rsid = rs)
+
+/-- The session leaves its room (`LeaveRoom`): out of the call, room-session entry dropped; the room
+goes when it was the last member. -/
+def leaveRoom (w : World) (pub : String) : World :=
+  ({ w with sessions := w.sessions.map (fun s =>
+      if s.pub = pub then { s with room := none, rsid := "", inCall := false } else s) } : World).gc
+
+/-- `join k room rsid` / `ijoin room rsid` (Hub.processRoom + processJoinRoom): the session leaves
+the room it is in; a room that does not exist yet is created with the properties the backend sent
+(nothing for an internal client, which joins without asking the backend). -/
+def joinRoom (w : World) (pub room rs : String) : Option World :=
+  match w.sessions.find? (fun s => s.pub = pub && s.kind != .virtual) with
+  | none => none
+  | some s =>
+    if room = "" || rs = "" || rsidInUse w rs || s.room = some room then none else
+    let w1 := leaveRoom w pub
+    let fresh := !w1.roomExists room
+    let w2 : World := { w1 with sessions := w1.sessions.map (fun x =>
+      if x.pub = pub then { x with room := some room, rsid := rs } else x) }
+    some (if fresh then w2.setProps room (if s.kind = .internal then "" else initialProps) else w2)
+
+def removeSession (w : World) (pub : String) : World :=
+  ({ w with sessions := w.sessions.filter (·.pub != pub) } : World).gc
+
+def clientPub (k : Nat) : Option String :=
+  if 1 ≤ k ∧ k ≤ 4 then some s!"@c{k}@" else none
+
+def ciPub : String := "@ci@"
+
 def mkWorld (n : Nat) (room : String) (d : DialoutEnv) : World :=
-  if n = 0 then { roomId := room, dialout := d }
-  else { roomId := room, dialout := d, props := initialProps,
-         sessions := [{ pub := c1, user := "u1", rsid := some "rs1" }, { pub := c2, user := "u2" }] }
+  let w0 : World := { dialout := d }
+  if n = 0 then w0
+  else
+    let w1 := (addClient w0 c1 "u1" .client).getD w0
+    let w2 := (addClient w1 c2 "u2" .client).getD w1
+    (joinRoom w2 c1 room "rs1").getD w2
+
+/-- The scripted changes of the world; `none` = precondition not met ("skip"). -/
+def worldOp (w : World) : List String → Option (Option World)
+  | ["conn", k, user] =>
+    some (match toNat? k, dec user with
+      | some k, some user => (clientPub k).bind (fun pub => addClient w pub user .client)
+      | _, _ => none)
+  | ["join", k, room, rs] =>
+    some (match toNat? k, dec room, dec rs with
+      | some k, some room, some rs =>
+        (clientPub k).bind (fun pub =>
+          if w.sessions.any (fun s => s.pub = pub && s.kind = .client) then joinRoom w pub room rs else none)
+      | _, _, _ => none)
+  | ["leave", k] =>
+    some (match toNat? k with
+      | some k => (clientPub k).bind (fun pub =>
+          if w.sessions.any (fun s => s.pub = pub && s.room.isSome) then some (leaveRoom w pub) else none)
+      | none => none)
+  | ["bye", k] =>
+    some (match toNat? k with
+      | some k => (clientPub k).bind (fun pub =>
+          if w.sessions.any (·.pub = pub) then some (removeSession w pub) else none)
+      | none => none)
+  | ["iconn"] => some (addClient w ciPub "" .internal)
+  | ["ijoin", room, rs] =>
+    some (match dec room, dec rs with
+      | some room, some rs => joinRoom w ciPub room rs
+      | _, _ => none)
+  | ["virt", n, room, flags] =>
+    some (match toNat? n, dec room, toNat? flags with
+      | some n, some room, some _flags =>     -- (the virtual session's own flag; not the room's call list)
+        let pub := s!"@v{n}@"
+        if !(w.sessions.any (·.pub = ciPub)) || n < 1 || n > 2 || w.sessions.any (·.pub = pub) ||
+            room = "" || !w.roomExists room then none
+        else some { w with sessions := w.sessions ++
+          [{ pub := pub, user := s!"vuv{n}", kind := .virtual, room := some room, rsid := pub }] }
+      | _, _, _ => none)
+  | ["vrem", n] =>
+    some (match toNat? n with
+      | some n =>
+        let pub := s!"@v{n}@"
+        if w.sessions.any (·.pub = ciPub) && w.sessions.any (·.pub = pub) then some (removeSession w pub) else none
+      | none => none)
+  | _ => none
 
 def evName : Ev → String
   | .roomlistInvite => "roomlist-invite"
@@ -342,6 +433,9 @@ def evName : Ev → String
   | .switchTo => "room-switchto"
   | .participantsUpdate => "participants-update"
   | .closed => "closed"
+  | .roomLeave => "room-leave"
+  | .roomDelete => "room-delete"
+  | .control => "control"
 
 def stripAt (s : String) : String := String.ofList (s.toList.filter (· != '@'))
 
@@ -353,10 +447,14 @@ def showEvents (es : List Event) : String :=
   let names := es.foldl (fun acc e => insertSorted (stripAt e.to ++ ":" ++ evName e.ev) acc) []
   if names.isEmpty then "-" else ",".intercalate names
 
+def roomIds (w : World) : List String :=
+  (w.sessions.filterMap (·.room)).foldl (fun acc r => insertSorted r acc) []
+
 def digest (w : World) : String :=
-  let r := if w.roomExists then "1" else "0"
-  let i := if w.members.any (fun s => s.pub = c1 && s.inCall) then "1" else "0"
-  s!"r{r}i{i}p{enc w.props}"
+  let parts := (roomIds w).map fun r =>
+    let inc := ((w.members r).filter (·.inCall)).foldl (fun acc s => insertSorted (stripAt s.pub) acc) []
+    s!"{enc r}={enc (w.propsOf r)}={if inc.isEmpty then "-" else "+".intercalate inc}"
+  if parts.isEmpty then "-" else ";".intercalate parts
 
 def showOut (o : Out) : String :=
   let st := match o.http with
@@ -369,7 +467,7 @@ def parseObserved : List String → Option Observed
   | [st, live, evs, dg] =>
     let status := if st = "neterr" then some none else (toNat? st).map some
     status.map fun s =>
-      { status := s, live := live = "live",
+      { status := s, live := live = "live", liveWhy := live,
         events := if evs = "-" then [] else evs.splitOn ",", digest := dg }
   | _ => none
 
@@ -377,38 +475,49 @@ def parseObserved : List String → Option Observed
 structure St where
   world : World := mkWorld 0 "100" .noClient
   judge : Judge := { lastDigest := digest (mkWorld 0 "100" .noClient) }
+  ready : Bool := false
 
 def bodyOf (bytes : List UInt8) (decoded : Option Body) : Option Body :=
   if bytes.length > genCfg.maxBodySize then some .tooLarge else decoded
 
+def request (st : St) (kind : String) (room body : String) (impl : List String) : St × String × String :=
+  match dec room, decBytes body with
+  | some room, some bytes =>
+    let decoded : Option Body :=
+      if kind = "raw" then some .undecodable
+      else match String.fromUTF8? (ByteArray.mk bytes.toArray) with
+        | none => none
+        | some txt => (parseJson txt).map (fun j => match decRequest j with
+          | some r => .ok r
+          | none => .undecodable)
+    match bodyOf bytes decoded with
+    | none => (st, "bad-op", "na")
+    | some b =>
+      let o := SigModel.ShapesBackend.step genCfg st.world room b
+      let (j', v) := match parseObserved impl with
+        | some ob => st.judge.observe st.world b ob
+        | none => (st.judge, "na")
+      ({ world := o.world, judge := j', ready := true }, showOut o, v)
+  | _, _ => (st, "bad-op", "na")
+
 def step (st : St) (op impl : List String) : St × String × String :=
   match op with
-  | ["setup", n, room, dial] =>
-    match toNat? n, dec room, parseDial dial with
-    | some n, some room, some d =>
-      let w := mkWorld n room d
-      ({ world := w, judge := { lastDigest := digest w } }, "ok", "ok")
-    | _, _, _ => (st, "bad-op", "na")
-  | [kind, room, body] =>
-    if kind != "req" && kind != "raw" then (st, "bad-op", "na") else
-    match dec room, decBytes body with
-    | some room, some bytes =>
-      let decoded : Option Body :=
-        if kind = "raw" then some .undecodable
-        else match String.fromUTF8? (ByteArray.mk bytes.toArray) with
-          | none => none
-          | some txt => (parseJson txt).map (fun j => match decRequest j with
-            | some r => .ok r
-            | none => .undecodable)
-      match bodyOf bytes decoded with
-      | none => (st, "bad-op", "na")
-      | some b =>
-        let o := SigModel.ShapesBackend.step genCfg st.world room b
-        let (j', v) := match parseObserved impl with
-          | some ob => st.judge.observe st.world b ob
-          | none => (st.judge, "na")
-        ({ world := o.world, judge := j' }, showOut o, v)
-    | _, _ => (st, "bad-op", "na")
-  | _ => (st, "bad-op", "na")
+  | "setup" :: rest =>
+    match rest with
+    | [n, room, dial] =>
+      match toNat? n, dec room, parseDial dial with
+      | some n, some room, some d =>
+        if st.ready then (st, "bad-op", "na") else
+        let w := mkWorld n room d
+        ({ world := w, judge := { lastDigest := digest w }, ready := true }, "ok", "ok")
+      | _, _, _ => (st, "bad-op", "na")
+    | _ => (st, "bad-op", "na")
+  | ["req", room, body] => request st "req" room body impl
+  | ["raw", room, body] => request st "raw" room body impl
+  | _ =>
+    match worldOp st.world op with
+    | none => (st, "bad-op", "na")
+    | some none => ({ st with ready := true }, "skip", "na")
+    | some (some w) => ({ world := w, judge := { lastDigest := digest w }, ready := true }, "ok", "na")
 
 end SigModel.Driver.C11
